@@ -50,112 +50,142 @@ def weak_orders(names: list[str], fixed: dict[str, float] | None = None) -> Iter
 
 
 class RoleEval:
-    """Evaluates test expressions under an assignment of role values."""
+    """Evaluates test expressions under an assignment of role values.
 
-    def __init__(self, resolver: Resolver, classify: Callable[[Term, ast.AST], str | None]):
+    Evaluation works on the *resolved* term of the test (locals substituted by their definitions), so
+    temporaries, De Morgan rewrites and split conditions do not change the outcome.
+    """
+
+    def __init__(self, resolver: Resolver, classify: Callable[[Term, ast.AST | None], str | None]):
         self.r = resolver
         self.classify = classify
         self.unknown_atoms: list[str] = []
 
-    def role(self, e: ast.AST, node: Node) -> str | None:
-        if isinstance(e, ast.Constant) and isinstance(e.value, (int, float)) and not isinstance(e.value, bool):
-            return f"const:{float(e.value)}"
-        t = self.r.term(e, node)
+    def role_of_term(self, t: Term, e: ast.AST | None = None) -> str | None:
+        if t[0] == "const" and isinstance(t[1], (int, float)) and not isinstance(t[1], bool):
+            return f"const:{float(t[1])}"
         return self.classify(t, e)
 
+    def role(self, e: ast.AST, node: Node) -> str | None:
+        return self.role_of_term(self.r.term(e, node), e)
+
     def roles_in(self, e: ast.AST, node: Node) -> set[str]:
+        return self.roles_in_term(self.r.term(e, node), e)
+
+    def roles_in_term(self, t: Term, e: ast.AST | None = None) -> set[str]:
+        from .sym import walk
+
         out: set[str] = set()
-        rl = self.role(e, node)
-        if rl is not None:
-            out.add(rl)
-            return out
-        for c in ast.iter_child_nodes(e):
-            if isinstance(c, ast.expr):
-                out |= self.roles_in(c, node)
+
+        def rec(x: Any, top: bool) -> None:
+            if isinstance(x, tuple) and x and isinstance(x[0], str):
+                rl = self.role_of_term(x, e if top else None)
+                if rl is not None:
+                    out.add(rl)
+                    return
+                for y in x[1:]:
+                    rec(y, False)
+            elif isinstance(x, (tuple, list, frozenset, set)):
+                for y in x:
+                    rec(y, False)
+
+        rec(t, True)
         return out
 
     def value(self, e: ast.AST, node: Node, env: dict[str, Any]) -> Any:
-        rl = self.role(e, node)
+        return self.eval_term(self.r.term(e, node), env, e)
+
+    def eval_term(self, t: Term, env: dict[str, Any], e: ast.AST | None = None) -> Any:
+        from .sym import show
+
+        rl = self.role_of_term(t, e)
         if rl is not None:
             if rl not in env:
                 raise AnalysisError(f"role {rl} has no value in the enumeration")
             return env[rl]
-        if isinstance(e, ast.NamedExpr):
-            return self.value(e.value, node, env)
-        if isinstance(e, ast.BoolOp):
-            vals = [self.value(v, node, env) for v in e.values]
-            if isinstance(e.op, ast.And):
+        k = t[0]
+        if k == "bool":
+            vals = [self.eval_term(v, env) for v in t[2]]
+            if t[1] == "and":
                 if any(v is not UNKNOWN and not v for v in vals):
                     return False
                 return UNKNOWN if any(v is UNKNOWN for v in vals) else True
             if any(v is not UNKNOWN and bool(v) for v in vals):
                 return True
             return UNKNOWN if any(v is UNKNOWN for v in vals) else False
-        if isinstance(e, ast.UnaryOp) and isinstance(e.op, ast.Not):
-            v = self.value(e.operand, node, env)
+        if k == "unop" and t[1] == "not":
+            v = self.eval_term(t[2], env)
             return UNKNOWN if v is UNKNOWN else (not v)
-        if isinstance(e, ast.UnaryOp) and isinstance(e.op, ast.USub):
-            v = self.value(e.operand, node, env)
-            return UNKNOWN if v is UNKNOWN else ("neg", v)
-        if isinstance(e, ast.Compare):
-            vals = [self.value(x, node, env) for x in [e.left] + list(e.comparators)]
+        if k == "ifexp":
+            c = self.eval_term(t[1], env)
+            if c is UNKNOWN:
+                return UNKNOWN
+            return self.eval_term(t[2] if c else t[3], env)
+        if k == "cmp":
+            vals = [self.eval_term(x, env) for x in t[2]]
             if any(v is UNKNOWN for v in vals):
-                self.unknown_atoms.append(unparse(e))
                 return UNKNOWN
             res = True
-            for op, a, b in zip(e.ops, vals, vals[1:]):
-                if isinstance(op, ast.Lt):
-                    r = a < b
-                elif isinstance(op, ast.LtE):
-                    r = a <= b
-                elif isinstance(op, ast.Gt):
-                    r = a > b
-                elif isinstance(op, ast.GtE):
-                    r = a >= b
-                elif isinstance(op, ast.Eq):
-                    r = a == b
-                elif isinstance(op, ast.NotEq):
-                    r = a != b
-                else:
-                    self.unknown_atoms.append(unparse(e))
+            for op, a, b in zip(t[1], vals, vals[1:]):
+                try:
+                    if op == "<":
+                        r = a < b
+                    elif op == "<=":
+                        r = a <= b
+                    elif op == ">":
+                        r = a > b
+                    elif op == ">=":
+                        r = a >= b
+                    elif op == "==":
+                        r = a == b
+                    elif op == "!=":
+                        r = a != b
+                    else:
+                        self.unknown_atoms.append(show(t))
+                        return UNKNOWN
+                except TypeError:
+                    self.unknown_atoms.append(show(t))
                     return UNKNOWN
                 res = res and r
             return res
-        if isinstance(e, ast.Constant):
-            return e.value
-        self.unknown_atoms.append(unparse(e))
+        if k == "const":
+            return t[1]
+        if k == "call" and t[1] == ("global", "bool") and len(t[2]) == 1:
+            v = self.eval_term(t[2][0], env)
+            return UNKNOWN if v is UNKNOWN else bool(v)
+        self.unknown_atoms.append(show(t))
         return UNKNOWN
 
 
 def simulate(cfg: CFG, start: Node, ev: RoleEval, env: dict[str, Any], targets: set[Node], stop: set[Node],
-             max_paths: int = 256) -> tuple[set[Node], bool]:
+             max_paths: int = 512, skip_loops: bool = False) -> tuple[set[Node], set[Node]]:
     """Abstractly execute from `start` until a node in `stop` (or an exit): which `targets` are visited?
 
-    Returns (visited targets, deterministic). Tests are decided from `env`; an undecidable test forks.
+    Returns (may, must): targets visited on some / on every explored path. Tests are decided from `env`;
+    an undecidable test forks, so may != must exactly when the outcome depends on something that is not a role.
     Back edges are not followed twice (one iteration).
     """
-    visited: set[Node] = set()
-    deterministic = True
-    work: list[tuple[Node, frozenset[int]]] = [(start, frozenset())]
+    may: set[Node] = set()
+    must: set[Node] | None = None
+    work: list[tuple[Node, frozenset[int], frozenset[Node]]] = [(start, frozenset(), frozenset())]
     paths = 0
     while work:
-        n, seen = work.pop()
+        n, seen, hit = work.pop()
         paths += 1
         if paths > max_paths:
             raise AnalysisError(f"path explosion while interpreting {cfg.fn.qualname}")
         while True:
             if n in targets:
-                visited.add(n)
+                hit = hit | {n}
             if n in stop or n.kind in ("exit", "raise_exit") or n.id in seen:
                 break
             seen = seen | {n.id}
             if n.kind == "test":
                 v = ev.value(n.ast, n, env)  # type: ignore[arg-type]
                 if v is UNKNOWN:
-                    deterministic = False
                     succs = [s for s, l in n.succ if l in ("true", "false")]
                     for s in succs[1:]:
-                        work.append((s, seen))
+                        work.append((s, seen, hit))
                     n = succs[0]
                     continue
                 label = "true" if v else "false"
@@ -165,11 +195,15 @@ def simulate(cfg: CFG, start: Node, ev: RoleEval, env: dict[str, Any], targets: 
                 n = nxt[0]
                 continue
             nxt = [s for s, l in n.succ if l != "exc"]
+            if skip_loops and n.kind == "for" and n is not start:
+                inner = cfg.loop_body(n)
+                if not (inner & targets):
+                    nxt = [s for s, l in n.succ if l == "done"]
             if not nxt:
                 break
-            if len(nxt) > 1:
-                # for-heads etc.: follow the body edge only when asked through `stop`
-                for s in nxt[1:]:
-                    work.append((s, seen))
+            for s in nxt[1:]:
+                work.append((s, seen, hit))
             n = nxt[0]
-    return visited, deterministic
+        may |= hit
+        must = set(hit) if must is None else (must & hit)
+    return may, (must or set())
